@@ -4,9 +4,11 @@
   list of operations (`Op`: register / renew / take-over, transfer, set-controller, update-resolve,
   update-details, place / cancel / complete sell order, purchase, place / raise / cancel / accept buy
   order, RollApp creation, alias registration and trading, time advance, trading switches, reserved
-  aliases), or for every single accepted operation on any state that satisfies the invariant.
+  aliases, RollApp ownership transfer of x/rollapp, and the governance paths: chain-id migration,
+  alias update, parameter update), or for every single accepted operation on any state that satisfies
+  the invariant.
 -/
-import DymVerif.Lemmas.DymNSCfg
+import DymVerif.Lemmas.DymNSLit
 import DymVerif.Lemmas.DymNSBoIdx
 import DymVerif.Lemmas.GenEqDymNS
 namespace DymVerif.C17
@@ -123,6 +125,7 @@ theorem owner_change_authorised {s s' : State} {op : Op} (hI : Inv s) (h : exec 
     | purchase a offer so hso hsel hse he hna => exact Or.inl ⟨he, Or.inr ⟨so, hso, hsel⟩⟩
     | complete a so b hso hsel hb he ha => exact Or.inl ⟨he, Or.inr ⟨so, hso, hsel⟩⟩
     | accept pfx id m bo hg hna hn he hso hb => exact Or.inl ⟨he, Or.inl rfl⟩
+    | migrate m he hnd => exact absurd rfl hne
 
 /-- corollary: **nobody but the previous owner re-registers a name during the grace period** -/
 theorem no_takeover_in_grace {s s' : State} {op : Op} (hI : Inv s) (h : exec s op = .ok s') {n : Name}
@@ -133,13 +136,14 @@ theorem no_takeover_in_grace {s s' : State} {op : Op} (hI : Inv s) (h : exec s o
   · exact hg
 
 /-- corollary: while the owner stays the same, the address records of an unexpired name change
-    only on the controller's signature (the only other case the model cannot exclude is the
-    completion of a sell order whose highest bidder is the owner, which hands the name to the
-    owner again and clears it) -/
+    only on the controller's signature — or by the governance chain-id migration, which rewrites
+    chain-ids only (`migration_changes_only_chain_ids`).  (The only other case the model cannot
+    exclude is the completion of a sell order whose highest bidder is the owner, which hands the
+    name to the owner again and clears it.) -/
 theorem address_records_by_controller {s s' : State} {op : Op} (hI : Inv s) (h : exec s op = .ok s') {n : Name}
     {d d' : DymName} (hd : getName s n = some d) (hd' : getName s' n = some d') (ho : d'.owner = d.owner)
     (hc : d'.configs ≠ d.configs) (hexp : d.expired s.now = false) :
-    op.actor = d.controller ∨ op = .completeName d.owner n := by
+    op.actor = d.controller ∨ op = .completeName d.owner n ∨ ∃ m, op = .migrateChainIds m := by
   obtain ⟨d'', hd'', hch⟩ := name_change hI h hd
   rw [hd'] at hd''; injection hd'' with hd''; subst hd''
   rcases hch with rfl | hch
@@ -156,9 +160,10 @@ theorem address_records_by_controller {s s' : State} {op : Op} (hI : Inv s) (h :
     | complete a so b hso hsel hb he ha =>
       simp only [cleared] at ho
       rcases ha with rfl | rfl
-      · exact Or.inr rfl
-      · rw [ho]; exact Or.inr rfl
+      · exact Or.inr (Or.inl rfl)
+      · rw [ho]; exact Or.inr (Or.inl rfl)
     | accept pfx id m bo hg hna hn he hso hb => exact absurd ho hb
+    | migrate m he hnd => exact Or.inr (Or.inr ⟨m, rfl⟩)
 
 /-! ## alias_bijection -/
 
@@ -280,7 +285,8 @@ theorem sale_exact_accept_alias {s s' : State} {a : Acct} {pfx : Bool} {id : Nat
     resolution of its value on its chain -/
 theorem resolve_agree_complete (p : Params) (t : Nat) (ops : List Op) (n : Name) (d : DymName) (c : Config)
     (hl : getNameLive (run (State.start p t) ops) n = some d) (hc : c ∈ d.configs) :
-    (c.path, n, prettyChain (run (State.start p t) ops) c.chain) ∈ reverse (run (State.start p t) ops) c.value c.chain :=
+    (c.path, n, prettyChain (run (State.start p t) ops) (cfgText c.chain)) ∈
+      reverse (run (State.start p t) ops) c.value (cfgText c.chain) :=
   reverse_complete (reachable_inv p t ops).idx hl hc
 
 /-- every reachable state also keeps the (chain, path) identities of each name's records distinct and
@@ -302,6 +308,7 @@ theorem reachable_cfgOK (p : Params) (t : Nat) (ops : List Op) : CfgOK (run (Sta
 theorem resolve_agree_partial (p : Params) (t : Nat) (ops : List Op)
     (hPW : ParamsWF (run (State.start p t) ops).p) (addr : Addr) (wc : Chain) (path : Path) (n : Name)
     (hm : (path, n) ∈ reverseRaw (run (State.start p t) ops) addr wc)
+    (hNL : NoLitName (run (State.start p t) ops) n)
     (hFb : (revByConfig (run (State.start p t) ops) addr wc).isEmpty = true →
       (wc = 0 ∧ addr.hrp = 0) ∨
       (wc ≠ 0 ∧ rollappHrp (run (State.start p t) ops) wc ≠ 0 ∧ addr.hrp = rollappHrp (run (State.start p t) ops) wc ∧
@@ -331,7 +338,7 @@ theorem resolve_agree_partial (p : Params) (t : Nat) (ops : List Op)
         exact revByFallback_sound_partial hU hH hP hwc hR hpre hfmt hNo hm
   · have : (!(revByConfig (run (State.start p t) ops) addr wc).isEmpty) = true := by simpa using he
     simp only [this, if_true] at hm
-    exact revByConfig_sound hU hH hP hm
+    exact revByConfig_sound hU hNL hH hP hm
 
 def cxParams : Params :=
   { tradeName := true, tradeAlias := true, grace := 100, soDur := 10, minOffer := 1, bidInc := 0,
